@@ -422,8 +422,10 @@ func (c *tunnelTimeMetrics) Describe(ch chan<- *prometheus.Desc) {
 }
 
 func (c *tunnelTimeMetrics) Collect(ch chan<- prometheus.Metric) {
-	tNow := now()
 	c.mu.Lock()
+	// Read the clock while holding the lock, so that it cannot be earlier than
+	// the start time of a client registered concurrently.
+	tNow := now()
 	for ipKey, client := range c.activeClients {
 		c.reportTunnelTime(ipKey, client, tNow)
 	}
